@@ -4,7 +4,8 @@ Three kinds of cases (all lines are str ending in one "\\n"; bytes runs encode t
 
   {"kind": "pair", "old": [...], "new": [...], "differ": "lcs" | "difflib" | "diff-e",
    "style": 0..7, "bytes": bool, "form": "list" | "iter" | "gen" | "tuple",
-   "nofinal": bool}       # the script's last line is given without its newline
+   "nofinal": bool,       # the script's last line is given without its newline
+   "via": [lines, ...]}   # optional: intermediate texts; the script is the diffs old->via[0]->...->new in a row
       the script is derived from (old, new) by the harness's own differ (model/c18_eddiff.py;
       ``style`` varies the spelling: N vs N,N, change as delete+append, one line per command) or
       by /usr/bin/diff -e; patch_lines(old, patches_from_ed_script(script)) must give new.
@@ -129,6 +130,16 @@ def build_script(case, plan=None):
     built from, big cases only)."""
     old, new = case["old"], case["new"]
     differ = case.get("differ", "lcs")
+    via = case.get("via")
+    if via:
+        # several diffs in a row (old -> via[0] -> ... -> new) written one after the other: still
+        # an ed script - every command addresses the buffer as the commands before it left it
+        texts = [old] + list(via) + [new]
+        script = []
+        for a, b in zip(texts, texts[1:]):
+            script += ed.make_script(a, b, differ if differ in ("lcs", "difflib") else "lcs",
+                                     int(case.get("style", 0)) & 15)
+        return script, ["differ:chain-of-%d" % (len(texts) - 1)]
     if plan is not None and (differ == "plan" or (differ == "lcs" and len(old) * len(new) > LCS_CELLS)):
         return ed.emit_plan(old, new, plan, int(case.get("style", 0)) & 15), ["differ:plan"]
     if differ == "diff-e":
@@ -400,6 +411,9 @@ def check(case):
         return check_big(case)
     if not isinstance(case, dict) or not valid_lines(case.get("old")) or not valid_lines(case.get("new")):
         return (False, ("invalid-case-skipped",))
+    if case.get("via") is not None and not (isinstance(case["via"], list) and len(case["via"]) <= 4
+                                             and all(valid_lines(v) for v in case["via"])):
+        return (False, ("invalid-case-skipped",))
     if case.get("kind") == "corrupt":
         return check_corrupt(case)
     return check_pair(case)
@@ -445,6 +459,47 @@ def gen_pair(draw, differs=("lcs", "lcs", "difflib")):
     return {"kind": "pair", "old": old, "new": new, "differ": draw(st.sampled_from(differs)),
             "style": draw(st.integers(0, 15)), "bytes": draw(st.booleans()),
             "form": draw(st.sampled_from(FORMS)), "nofinal": draw(st.sampled_from([False, False, False, True]))}
+
+
+@st.composite
+def gen_chain(draw):
+    case = draw(gen_pair())
+    n = draw(st.integers(1, 3))
+    via = []
+    cur = case["old"]
+    for _ in range(n):
+        nxt = list(cur)
+        for _h in range(draw(st.integers(1, 2))):
+            pos = draw(st.integers(0, len(nxt)))
+            nxt[pos:pos + draw(st.integers(0, 2))] = draw(few)
+        via.append(nxt)
+        cur = nxt
+    case["via"] = via
+    return case
+
+
+def enum_chains():
+    """old -> mid -> new over short texts: every pair of small edits whose second diff touches
+    lines the first one wrote, precedes it, follows it or overlaps it."""
+    base = ["a\n", "b\n", "c\n", "a\n", "b\n"]
+    edits = []
+    for pos in range(0, 6):
+        for ndel in (0, 1, 2):
+            for ins in ([], ["X\n"], ["X\n", "Y\n"], ["..\n", "1d\n"]):
+                if ndel or ins:
+                    edits.append((pos, ndel, ins))
+    k = 0
+    for e1 in edits:
+        mid = list(base)
+        mid[e1[0]:e1[0] + e1[1]] = e1[2]
+        for e2 in edits:
+            if e2[0] > len(mid):
+                continue
+            new = list(mid)
+            new[e2[0]:e2[0] + e2[1]] = e2[2]
+            k += 1
+            yield {"kind": "pair", "old": base, "via": [mid], "new": new, "differ": ("lcs", "difflib")[k % 2],
+                   "style": k % 8, "bytes": k % 3 == 0, "form": FORMS[k % 4], "nofinal": k % 7 == 0}
 
 
 @st.composite
@@ -555,14 +610,18 @@ def sources(tier):
         return [Enum("pairs<=3", enum_pairs(3), EXHAUSTIVE["quick"]),
                 Enum("corruptions-fixed", enum_corruptions, "class x variant x command over 10 fixed pairs"),
                 Enum("big-pairs", enum_big("quick"), EXHAUSTIVE_BIG),
+                Enum("chains", enum_chains, "two diffs in a row over a 5-line text: every pair of small edits (54 x 54)"),
                 Hyp("pairs", gen_pair(), 700, shards=8),
+                Hyp("chained-diffs", gen_chain(), 300, shards=4),
                 Hyp("corruptions", gen_corrupt(), 250, shards=6),
                 Hyp("diff-e", diff_pairs, 150, shards=2),
                 Hyp("big", gen_big(), 25, shards=4)]
     return [Enum("pairs<=4", enum_pairs(4), EXHAUSTIVE["thorough"]),
             Enum("corruptions-fixed", enum_corruptions, "class x variant x command over 10 fixed pairs"),
             Enum("big-pairs", enum_big("thorough"), EXHAUSTIVE_BIG),
+            Enum("chains", enum_chains, "two diffs in a row over a 5-line text: every pair of small edits (54 x 54)"),
             Hyp("pairs", gen_pair(), 15000, shards=16),
+            Hyp("chained-diffs", gen_chain(), 4000, shards=8),
             Hyp("corruptions", gen_corrupt(), 2500, shards=16),
             Hyp("diff-e", diff_pairs, 250, shards=8),
             Hyp("big", gen_big(), 150, shards=16)]
